@@ -8,13 +8,17 @@ package replfx
 
 import (
 	"context"
+	"errors"
 	"fmt"
+	"io"
+	"os"
 	"sync/atomic"
 	"time"
 
 	"github.com/jamf/regatta/regattapb"
 	"github.com/jamf/regatta/regattaserver"
 	"github.com/jamf/regatta/replication"
+	"github.com/jamf/regatta/replication/snapshot"
 	"github.com/jamf/regatta/storage"
 	"github.com/jamf/regatta/storage/table"
 	"go.uber.org/zap"
@@ -210,6 +214,56 @@ func Indices(e *storage.Engine, tableName string) (local, leader uint64, err err
 func DropTable(f *enginefx.Fixture, name string) {
 	_ = f.E.DeleteTable(name)
 	_ = f.E.Manager.VerifReconcile()
+}
+
+// BrokenRestore fetches the leader's snapshot stream of a table exactly as a worker's recovery does (Snapshot.Stream into a temporary
+// snapshot file) and hands it to the follower engine's Restore through a reader that fails after `after` records - the state a
+// recovery leaves behind when it dies half way (I/O error on the temporary file, process killed while loading).  It returns the number
+// of records the stream held and Restore's error (nil when the stream was shorter than `after`: a complete recovery).
+func (p *Pair) BrokenRestore(tableName string, srv, after int) (records int, fetchErr, restoreErr error) {
+	ctx, cancel := context.WithTimeout(context.Background(), 60*time.Second)
+	defer cancel()
+	stream, err := regattapb.NewSnapshotClient(p.Conns[srv%len(p.Conns)]).Stream(ctx, &regattapb.SnapshotRequest{Table: []byte(tableName)})
+	if err != nil {
+		return 0, err, nil
+	}
+	sf, err := snapshot.NewTemp()
+	if err != nil {
+		return 0, err, nil
+	}
+	defer func() {
+		_ = sf.Close()
+		_ = os.Remove(sf.Path())
+	}()
+	if _, err := io.Copy(sf.File, &snapshot.Reader{Stream: stream}); err != nil {
+		return 0, err, nil
+	}
+	if err := sf.Sync(); err != nil {
+		return 0, err, nil
+	}
+	if _, err := sf.Seek(0, io.SeekStart); err != nil {
+		return 0, err, nil
+	}
+	br := &breakingReader{r: sf, after: after}
+	restoreErr = p.F.E.Restore(tableName, br)
+	return br.n, nil, restoreErr
+}
+
+type breakingReader struct {
+	r     io.Reader
+	after int
+	n     int
+}
+
+func (b *breakingReader) Read(q []byte) (int, error) {
+	if b.n >= b.after {
+		return 0, errors.New("snapshot file read error (injected)")
+	}
+	n, err := b.r.Read(q)
+	if err == nil {
+		b.n++
+	}
+	return n, err
 }
 
 var _ = table.Table{}
